@@ -3137,6 +3137,11 @@ class QuicConnection:
                         discarded.add(stream)
                         continue
 
+                    if stream.is_blocked:
+                        # the peer's stream limit does not allow this stream yet,
+                        # no frame may mention it
+                        continue
+
                     if stream.receiver.stop_pending:
                         # STOP_SENDING
                         self._write_stop_sending_frame(builder=builder, stream=stream)
@@ -3144,7 +3149,7 @@ class QuicConnection:
                     if stream.sender.reset_pending:
                         # RESET_STREAM
                         self._write_reset_stream_frame(builder=builder, stream=stream)
-                    elif not stream.is_blocked and not stream.sender.buffer_is_empty:
+                    elif not stream.sender.buffer_is_empty:
                         # STREAM
                         used = self._write_stream_frame(
                             builder=builder,
